@@ -55,6 +55,7 @@ DUMP_AUX_C = r'''
 #include "easel.h"
 #include "esl_alphabet.h"
 #include "esl_sq.h"
+#include "esl_msa.h"
 static int seen;
 static void handler(int errcode, int use_errno, char *file, int line, char *fmt, va_list ap) { seen = errcode; }
 int main(void)
@@ -150,7 +151,17 @@ int main(void)
       printf(",%d", type);
     }
   }
-  printf("],\"eslUNKNOWN\":%d,\"eslOK\":%d,\"eslFAIL\":%d,\"eslEINVAL\":%d,\"eslENOALPHABET\":%d}\n", eslUNKNOWN, eslOK, eslFAIL, eslEINVAL, eslENOALPHABET);
+  printf("],\"msamixed\":");
+  /* esl_msa_GuessAlphabet on a text alignment with one row called RNA and one row called amino (documented: indeterminate) */
+  {
+    ESL_MSA *msa = esl_msa_Create(2, 12); int type = -1;
+    strcpy(msa->aseq[0], "ACGUACGUACGU"); strcpy(msa->aseq[1], "ACDEFGHIKLMN");
+    esl_msa_SetSeqName(msa, 0, "s1", -1); esl_msa_SetSeqName(msa, 1, "s2", -1);
+    esl_msa_GuessAlphabet(msa, &type);
+    printf("%d", type);
+    esl_msa_Destroy(msa);
+  }
+  printf(",\"eslUNKNOWN\":%d,\"eslOK\":%d,\"eslFAIL\":%d,\"eslEINVAL\":%d,\"eslENOALPHABET\":%d}\n", eslUNKNOWN, eslOK, eslFAIL, eslEINVAL, eslENOALPHABET);
   return 0;
 }
 '''
@@ -193,6 +204,8 @@ def render_aux(d):
         out.append("def xClass_%s : List Nat := %s" % (nm, lean_list(t["x"])))
         out.append("def xGet_%s : List Nat := %s" % (nm, lean_list(t["get"])))
     out.append("def guessProbe : List Nat := " + lean_list(d["guessprobe"]))
+    out.append("/-- answer of `esl_msa_GuessAlphabet` on the text alignment `ACGUACGUACGU` / `ACDEFGHIKLMN` (one row called RNA, one amino) -/")
+    out.append("def msaMixedProbe : Nat := %d" % d["msamixed"])
     for k in ("eslUNKNOWN", "eslOK", "eslFAIL", "eslEINVAL", "eslENOALPHABET"):
         out.append("def c_%s : Nat := %d" % (k, d[k]))
     out.append("")
